@@ -609,10 +609,18 @@ class Body:
                 if src is not None and src in mutref and self.locals[tgt]["tyj"].get("k") == "ref" and self.locals[tgt]["tyj"].get("mut"):
                     mutref[tgt] = mutref[src]
                     changed = True
+        # a write through a reference that is known to be `&mut L` (`*r = v`, `*r = f(..)`) is a definition of L
+        for bi, si, st in self.stmts():
+            if st["k"] == "assign":
+                lhs = st["lhs"]
+                if len(lhs["proj"]) == 1 and lhs["proj"][0]["k"] == "deref" and lhs["local"] in mutref:
+                    defs.setdefault(mutref[lhs["local"]], []).append(("rv", bi, si, st["rv"]))
         for bi in sorted(live):
             t = self.blocks[bi]["term"]
             if t["k"] == "call":
                 d = t["dest"]
+                if len(d["proj"]) == 1 and d["proj"][0]["k"] == "deref" and d["local"] in mutref:
+                    defs.setdefault(mutref[d["local"]], []).append(("call", bi))
                 if not d["proj"]:
                     defs.setdefault(d["local"], []).append(("call", bi))
                 for ai, a in enumerate(t["args"]):
@@ -1489,6 +1497,328 @@ def ssa_split(bj):
     return out
 
 
+# ----------------------------------------------------------------------------- closures that do real work -> explicit control flow
+
+class _Bail(Exception):
+    pass
+
+
+_OPT = "core::option::Option"
+DESUGARED = ("core::option::Option::map_or", "core::option::Option::map", "core::option::Option::and_then",
+             "core::iter::Iterator::find_map", "core::iter::Iterator::for_each")
+
+
+def _map_places(x, f):
+    """deep copy of a MIR JSON fragment with every place dict rewritten by f (f handles the place's own projections)"""
+    if isinstance(x, dict):
+        if "local" in x and "proj" in x:
+            return f(x)
+        return {k: _map_places(v, f) for k, v in x.items()}
+    if isinstance(x, list):
+        return [_map_places(v, f) for v in x]
+    return x
+
+
+def _closure_does_work(crate, cj):
+    """a closure whose body contains a loop or calls a crate-local unsafe function carries control flow / table accesses the
+    rules must see in its caller (an expression closure such as `|x| x + 1` is left to the combinator models of view.py)"""
+    b = Body(crate, cj)
+    if any(b.in_cycle(i) for i in b.live_blocks()):
+        return True
+    for bi, c, t in b.calls():
+        if c.local and c.unsafe:
+            return True
+    return False
+
+
+def _plain_local(op):
+    return op["place"]["local"] if op["k"] in ("copy", "move") and not op["place"]["proj"] else None
+
+
+def desugar_closures(crate, bj, inlinable, depth=0):
+    """Normal-form step: a call `x.map_or(d, f)`, `x.map(f)`, `x.and_then(f)`, `it.find_map(f)`, `it.for_each(f)` whose closure f
+    *does real work* (see _closure_does_work) is replaced by the explicit control flow it stands for, with the closure body
+    spliced in and its up-var accesses replaced by the captured places:
+        x.map_or(d, f)   ->  match x { None => d, Some(v) => f(v) }
+        it.find_map(f)   ->  loop { match it.next() { None => break None, Some(v) => if let Some(r) = f(v) { break Some(r) } } }
+    so that a search loop or a fail walk written inside a closure is seen by the rules like the same code written in place."""
+    if depth > 3:
+        return bj
+    blocks = [dict(b) for b in bj["blocks"]]
+    locals_ = list(bj["locals"])
+    debug = list(bj["debug"])
+    changed = False
+
+    def new_local(ty="?", like=None):
+        locals_.append(dict(like) if like is not None else {"ty": ty, "tyj": {"k": "unknown"}})
+        return len(locals_) - 1
+
+    def closure_def(local):
+        """(bi, si, stmt) of the closure aggregate assigned to `local` (unique), chasing one move"""
+        for _ in range(3):
+            ds = [(bi, si, st) for bi, blk in enumerate(blocks) if not blk["cleanup"] for si, st in enumerate(blk["stmts"])
+                  if st["k"] == "assign" and not st["lhs"]["proj"] and st["lhs"]["local"] == local]
+            if len(ds) != 1:
+                return None
+            rv = ds[0][2]["rv"]
+            if rv["k"] == "aggregate" and rv.get("akind") == "closure":
+                return ds[0]
+            if rv["k"] == "use" and _plain_local(rv["op"]) is not None:
+                local = _plain_local(rv["op"])
+                continue
+            return None
+        return None
+
+    def ref_target(local):
+        """Q when `local` is defined once as `&Q` / `&mut Q`"""
+        ds = [st for blk in blocks if not blk["cleanup"] for st in blk["stmts"]
+              if st["k"] == "assign" and not st["lhs"]["proj"] and st["lhs"]["local"] == local]
+        if len(ds) == 1 and ds[0]["rv"]["k"] == "ref":
+            return ds[0]["rv"]["place"]
+        return None
+
+    def splice(cj, captured, arg_ops, dest, target, span):
+        """append the closure body; returns its entry block"""
+        lo = len(locals_)
+        bo = len(blocks)
+        locals_.extend(cj["locals"])
+        by_ref = str(cj["locals"][1]["ty"]).startswith("&")
+        direct = not dest["proj"]
+
+        def rw(pl):
+            l = pl["local"]
+
+            def shift_proj(pr):
+                out = []
+                for pe in pr:
+                    if pe["k"] == "index":
+                        pe = dict(pe)
+                        if pe["local"] == 1:
+                            raise _Bail()
+                        pe["local"] = dest["local"] if (pe["local"] == 0 and direct) else pe["local"] + lo
+                    out.append(pe)
+                return out
+            if l == 1:
+                pr = pl["proj"]
+                k = 0
+                if by_ref:
+                    if not pr or pr[0]["k"] != "deref":
+                        raise _Bail()
+                    k = 1
+                if len(pr) <= k or pr[k]["k"] != "field":
+                    raise _Bail()
+                i = pr[k]["idx"]
+                rest = shift_proj(pr[k + 1:])
+                if i >= len(captured) or captured[i] is None:
+                    raise _Bail()
+                val_place, ref_place = captured[i]
+                if ref_place is not None and rest and rest[0]["k"] == "deref":
+                    base, rest = ref_place, rest[1:]
+                else:
+                    base = val_place
+                return {"local": base["local"], "proj": list(base["proj"]) + rest, "ty": pl.get("ty")}
+            q = dict(pl)
+            q["local"] = dest["local"] if (l == 0 and direct) else l + lo
+            q["proj"] = shift_proj(pl["proj"])
+            return q
+        entry_stmts = []
+        for ai, a in enumerate(arg_ops):
+            entry_stmts.append({"k": "assign", "lhs": {"local": lo + 2 + ai, "proj": [], "ty": cj["locals"][2 + ai]["ty"]},
+                                "rv": {"k": "use", "op": a}, "span": span, "exp": False})
+        for d in cj["debug"]:
+            if isinstance(d.get("at"), dict) and "local" in d["at"] and d["at"]["local"] not in (0, 1):
+                dd = dict(d)
+                dd["at"] = dict(d["at"], local=d["at"]["local"] + lo)
+                dd["arg"] = None
+                debug.append(dd)
+        newb = []
+        for fi, fb in enumerate(cj["blocks"]):
+            nb = {"cleanup": fb["cleanup"], "stmts": list(entry_stmts) if fi == 0 else [], "term": None}
+            for st in fb["stmts"]:
+                nb["stmts"].append(_map_places(st, rw) if st["k"] in ("assign", "setdiscr") else st)
+            ft = fb["term"]
+            if ft["k"] == "return":
+                if not direct:
+                    nb["stmts"].append({"k": "assign", "lhs": dest, "rv": {"k": "use", "op": {"k": "move", "place": {"local": lo, "proj": []}}},
+                                        "span": span, "exp": False})
+                nb["term"] = {"k": "goto", "target": target, "span": span, "exp": False}
+            else:
+                t2 = _map_places(ft, rw)
+                if "target" in t2 and t2["target"] is not None:
+                    t2["target"] = ft["target"] + bo
+                if t2["k"] == "switch":
+                    t2["targets"] = [[v, b_ + bo] for v, b_ in ft["targets"]]
+                    t2["otherwise"] = ft["otherwise"] + bo
+                nb["term"] = t2
+            newb.append(nb)
+        blocks.extend(newb)
+        return bo
+
+    bi = 0
+    while bi < len(blocks):
+        blk = blocks[bi]
+        t = blk["term"]
+        if not (t["k"] == "call" and not blk["cleanup"] and t["func"]["k"] == "const" and "fn" in t["func"] and t.get("target") is not None):
+            bi += 1
+            continue
+        base = callee_base(Callee(t["func"]["fn"]).key)
+        if base not in DESUGARED:
+            bi += 1
+            continue
+        fop = t["args"][-1]
+        fl = _plain_local(fop)
+        cd = closure_def(fl) if fl is not None else None
+        if cd is None:
+            bi += 1
+            continue
+        cbi, csi, cst = cd
+        cpath = cst["rv"]["closure"]
+        cb = crate.bodies.get(cpath)
+        if cb is None:
+            bi += 1
+            continue
+        cj = desugar_closures(crate, inline_body(crate, cb.j, inlinable), inlinable, depth + 1)
+        if not _closure_does_work(crate, cj):
+            bi += 1
+            continue
+        captured = []
+        for op in cst["rv"]["ops"]:
+            if op["k"] in ("copy", "move"):
+                rl = _plain_local(op)
+                captured.append((op["place"], ref_target(rl) if rl is not None else None))
+            else:
+                captured.append(None)
+        span = t["span"]
+        dest, target = t["dest"], t["target"]
+        saved = (len(blocks), len(locals_), len(debug))
+        try:
+            if base.startswith("core::option::Option::"):
+                xop = t["args"][0]
+                xl = new_local(like=locals_[_plain_local(xop)] if _plain_local(xop) is not None else None, ty=xop.get("ty", "?"))
+                dl = new_local("isize")
+                vl = new_local(like=cj["locals"][2])
+                pre = [{"k": "assign", "lhs": {"local": xl, "proj": []}, "rv": {"k": "use", "op": xop}, "span": span, "exp": False},
+                       {"k": "assign", "lhs": {"local": dl, "proj": []}, "rv": {"k": "discr", "place": {"local": xl, "proj": []}}, "span": span, "exp": False}]
+                some_v = {"k": "move", "place": {"local": xl, "proj": [{"k": "downcast", "name": "Some", "variant": 1},
+                                                                        {"k": "field", "name": "0", "idx": 0, "adt": _OPT, "variant": "Some"}]}}
+                # None arm
+                bN = len(blocks)
+                if base.endswith("::map_or"):
+                    none_rv = {"k": "use", "op": t["args"][1]}
+                else:
+                    none_rv = {"k": "aggregate", "akind": "adt", "adt": _OPT, "variant": "None", "fields": [], "ops": []}
+                blocks.append({"cleanup": False, "stmts": [{"k": "assign", "lhs": dest, "rv": none_rv, "span": span, "exp": False}],
+                               "term": {"k": "goto", "target": target, "span": span, "exp": False}})
+                # Some arm
+                bS = len(blocks)
+                blocks.append({"cleanup": False, "stmts": [{"k": "assign", "lhs": {"local": vl, "proj": []}, "rv": {"k": "use", "op": some_v},
+                                                            "span": span, "exp": False}], "term": None})
+                if base.endswith("::map"):
+                    rl = new_local(like=cj["locals"][0])
+                    bW = len(blocks)
+                    blocks.append({"cleanup": False, "stmts": [{"k": "assign", "lhs": dest, "rv": {
+                        "k": "aggregate", "akind": "adt", "adt": _OPT, "variant": "Some", "fields": ["0"],
+                        "ops": [{"k": "move", "place": {"local": rl, "proj": []}}]}, "span": span, "exp": False}],
+                        "term": {"k": "goto", "target": target, "span": span, "exp": False}})
+                    entry = splice(cj, captured, [{"k": "move", "place": {"local": vl, "proj": []}}], {"local": rl, "proj": []}, bW, span)
+                else:
+                    entry = splice(cj, captured, [{"k": "move", "place": {"local": vl, "proj": []}}], dest, target, span)
+                blocks[bS]["term"] = {"k": "goto", "target": entry, "span": span, "exp": False}
+                nb = dict(blk)
+                nb["stmts"] = list(blk["stmts"]) + pre
+                nb["term"] = {"k": "switch", "discr": {"k": "move", "place": {"local": dl, "proj": []}}, "discr_ty": "isize",
+                              "targets": [[0, bN]], "otherwise": bS, "span": span, "exp": False}
+                blocks[bi] = nb
+            else:
+                itop = t["args"][0]
+                pre = []
+                is_for_each = base.endswith("::for_each")
+                if is_for_each:
+                    # by-value receiver: keep it in a local and pull through a reference to it
+                    il = new_local(like=locals_[_plain_local(itop)] if _plain_local(itop) is not None else None)
+                    rl_ = new_local("&mut ?")
+                    pre = [{"k": "assign", "lhs": {"local": il, "proj": []}, "rv": {"k": "use", "op": itop}, "span": span, "exp": False},
+                           {"k": "assign", "lhs": {"local": rl_, "proj": []}, "rv": {"k": "ref", "mut": True, "place": {"local": il, "proj": []}},
+                            "span": span, "exp": False}]
+                    pull_arg = {"k": "copy", "place": {"local": rl_, "proj": []}}
+                else:
+                    pl_ = _plain_local(itop)
+                    if pl_ is None:
+                        raise _Bail()
+                    pull_arg = {"k": "copy", "place": {"local": pl_, "proj": []}}
+                fnj = dict(t["func"]["fn"])
+                fnj.update({"path": "core::iter::Iterator::next", "name": "next", "full": "<_ as core::iter::Iterator>::next",
+                            "targs": fnj.get("targs", [])[:1]})
+                for k_ in ("resolved", "resolved_local", "resolved_adt", "resolved_self_ty"):
+                    fnj.pop(k_, None)
+                ol = new_local("core::option::Option<?>")
+                dl = new_local("isize")
+                vl = new_local(like=cj["locals"][2])
+                bL = len(blocks)
+                blocks.append({"cleanup": False, "stmts": [], "term": None})       # pull
+                bC = len(blocks)
+                blocks.append({"cleanup": False, "stmts": [{"k": "assign", "lhs": {"local": dl, "proj": []},
+                                                            "rv": {"k": "discr", "place": {"local": ol, "proj": [], "ty": "core::option::Option<?>"}},
+                                                            "span": span, "exp": False}], "term": None})
+                bEnd = len(blocks)
+                end_rv = {"k": "aggregate", "akind": "tuple", "ops": []} if is_for_each else \
+                    {"k": "aggregate", "akind": "adt", "adt": _OPT, "variant": "None", "fields": [], "ops": []}
+                blocks.append({"cleanup": False, "stmts": [{"k": "assign", "lhs": dest, "rv": end_rv, "span": span, "exp": False}],
+                               "term": {"k": "goto", "target": target, "span": span, "exp": False}})
+                bBody = len(blocks)
+                some_v = {"k": "move", "place": {"local": ol, "proj": [{"k": "downcast", "name": "Some", "variant": 1},
+                                                                        {"k": "field", "name": "0", "idx": 0, "adt": _OPT, "variant": "Some"}]}}
+                blocks.append({"cleanup": False, "stmts": [{"k": "assign", "lhs": {"local": vl, "proj": []}, "rv": {"k": "use", "op": some_v},
+                                                            "span": span, "exp": False}], "term": None})
+                blocks[bL]["term"] = {"k": "call", "func": {"k": "const", "ty": "fn", "text": fnj["full"], "fn": fnj}, "args": [pull_arg],
+                                      "dest": {"local": ol, "proj": []}, "target": bC, "span": span, "exp": False}
+                blocks[bC]["term"] = {"k": "switch", "discr": {"k": "move", "place": {"local": dl, "proj": []}}, "discr_ty": "isize",
+                                      "targets": [[0, bEnd]], "otherwise": bBody, "span": span, "exp": False}
+                if is_for_each:
+                    ul = new_local("()")
+                    entry = splice(cj, captured, [{"k": "move", "place": {"local": vl, "proj": []}}], {"local": ul, "proj": []}, bL, span)
+                else:
+                    rl2 = new_local(like=cj["locals"][0])
+                    d2 = new_local("isize")
+                    bChk = len(blocks)
+                    blocks.append({"cleanup": False, "stmts": [{"k": "assign", "lhs": {"local": d2, "proj": []},
+                                                                "rv": {"k": "discr", "place": {"local": rl2, "proj": [], "ty": "core::option::Option<?>"}},
+                                                                "span": span, "exp": False}], "term": None})
+                    bFound = len(blocks)
+                    blocks.append({"cleanup": False, "stmts": [{"k": "assign", "lhs": dest, "rv": {"k": "use", "op": {"k": "move", "place": {"local": rl2, "proj": []}}},
+                                                                "span": span, "exp": False}],
+                                   "term": {"k": "goto", "target": target, "span": span, "exp": False}})
+                    blocks[bChk]["term"] = {"k": "switch", "discr": {"k": "move", "place": {"local": d2, "proj": []}}, "discr_ty": "isize",
+                                            "targets": [[0, bL]], "otherwise": bFound, "span": span, "exp": False}
+                    entry = splice(cj, captured, [{"k": "move", "place": {"local": vl, "proj": []}}], {"local": rl2, "proj": []}, bChk, span)
+                blocks[bBody]["term"] = {"k": "goto", "target": entry, "span": span, "exp": False}
+                nb = dict(blk)
+                nb["stmts"] = list(blk["stmts"]) + pre
+                nb["term"] = {"k": "goto", "target": bL, "span": span, "exp": False}
+                blocks[bi] = nb
+        except (_Bail, KeyError, IndexError, TypeError):
+            del blocks[saved[0]:]
+            del locals_[saved[1]:]
+            del debug[saved[2]:]
+            blocks[bi] = blk
+            bi += 1
+            continue
+        # the closure value itself is no longer used
+        cb_ = dict(blocks[cbi])
+        cb_["stmts"] = [st for si, st in enumerate(blocks[cbi]["stmts"]) if not (cbi != bi and si == csi) and not (cbi == bi and st is cst)]
+        blocks[cbi] = cb_
+        changed = True
+        bi += 1
+    if not changed:
+        return bj
+    out = dict(bj)
+    out["blocks"] = blocks
+    out["locals"] = locals_
+    out["debug"] = debug
+    out["desugared"] = True
+    return out
+
+
 def normalise_crate(crate, anchors):
     """replace every body by its normal form; non-anchor crate-local functions that were spliced into all their callers are
     removed from crate.bodies (kept in crate.helper_bodies)"""
@@ -1499,7 +1829,7 @@ def normalise_crate(crate, anchors):
         if j["kind"] == "Promoted":
             newj[p] = j
         else:
-            newj[p] = ssa_split(inline_body(crate, j, inlinable))
+            newj[p] = ssa_split(desugar_closures(crate, inline_body(crate, j, inlinable), inlinable))
     crate.helper_bodies = {}
     crate.bodies = {}
     for p, j in newj.items():
